@@ -8,14 +8,15 @@
 (* model exports / imports as the pinned tree does and TLC must find a counterexample.          *)
 EXTENDS SnapshotRT, Json
 
-CONSTANTS MaxNodes, MaxRels, Tokens, Dev, MaxHist, Extras
+CONSTANTS MaxNodes, MaxRels, Tokens, Dev, MaxHist, Extras,
+          FamKinds, FamSizes   \* scaled families: TLC chooses (kind, n), the harness builds the graph
 VARIABLES hist, used
 vars == <<G, hist, used>>
 
 Plain == "i:7"
 Init == GInit /\ hist = <<>> /\ used = FALSE
 H(r) == hist' = Append(hist, r)
-Done == hist # <<>> /\ hist[Len(hist)].op = "RoundTrip"
+Done == hist # <<>> /\ hist[Len(hist)].op \in {"RoundTrip", "FamilyRT"}
 
 \* a property map: none, the plain value, or (once per graph) a boundary token
 PropChoices(key) == {<<>>, [x \in {key} |-> Plain]} \cup (IF used THEN {} ELSE {[x \in {key} |-> t] : t \in Tokens})
@@ -55,10 +56,13 @@ Next ==
   /\ ~Done
   /\ \/ Len(hist) < MaxHist - 1 /\ Build
      \/ Handles(G.nodes) # {} /\ UNCHANGED <<G, used>> /\ H([op |-> "RoundTrip"])
+     \/ /\ hist = <<>>
+        /\ \E kind \in FamKinds, n \in FamSizes : H([op |-> "FamilyRT", kind |-> kind, n |-> n])
+        /\ UNCHANGED <<G, used>>
 
 Spec == Init /\ [][Next]_vars
 View == <<G, used, Done>>
 RoundTripIdeal == Done => Iso(Imported(G, Dev), Logical(G))
-Emit == (hist'[Len(hist')].op = "RoundTrip") => PrintT(<<"SCRIPT", ToJson(hist')>>)
+Emit == (hist'[Len(hist')].op \in {"RoundTrip", "FamilyRT"}) => PrintT(<<"SCRIPT", ToJson(hist')>>)
 SimEmit == Done => PrintT(<<"SCRIPT", ToJson(hist)>>)
 =============================================================================
